@@ -102,7 +102,22 @@ def parser_yields_sorted_angstrom_radii(self, user_input):
             return True
         svals, vals, amb = exp
         if amb:
-            REC.ambiguous(mon, "arange length ambiguous in floating point")
+            # the stop lies (almost) exactly a whole number of steps from the start and the operands are not exact in binary: whether the
+            # last point is included is decided by rounding. Two answers are acceptable - the mathematically intended one and the documented
+            # behaviour of numpy.arange on the same numbers - anything else (e.g. a running sum that lands below the stop once more) is not
+            m = re.fullmatch(r"\s*(arange|range)\s*\((.*)\)\s*", user_input, re.S)
+            got = np.asarray(self.trans_grid, dtype=float)
+            alts = [np.array(sorted(float(v * 10) for v in vals))]
+            if m:
+                try:
+                    alts.append(np.sort(np.arange(*[float(x) for x in m.group(2).split(",") if x.strip()], dtype=float)) * 10)
+                except Exception:
+                    pass
+            tol = 1e-13 + 8 * max(len(got), 1) * np.finfo(float).eps * float(np.abs(got).max() if len(got) else 1.0)
+            if any(a.shape == got.shape and np.allclose(got, a, rtol=1e-12, atol=tol) for a in alts):
+                REC.ambiguous(mon, "arange length ambiguous in floating point (one of the two acceptable answers returned)")
+            else:
+                REC.fail(mon, {"text": user_input, "problems": [{"radii": got[:12], "neither the intended nor the numpy.arange answer": [a[:12] for a in alts]}]})
             return True
         if any(v < 0 for v in vals):
             REC.fail(mon, {"text": user_input, "problem": "negative distance accepted", "grid": self.trans_grid})
@@ -359,7 +374,24 @@ def run_random(tr, spec):
             drive_helpers_direct(tr, rng)
         if it % 10 == 0:
             text, _ = gen_list(rng, negative=True)
-            drive(tr, text, "negative", must_reject=True)
+            for _ in range(3):     # an input that was refused once stays refused
+                drive(tr, text, "negative", must_reject=True)
+        if it % 10 == 7:
+            # decimal steps with the stop exactly a whole number of steps from the start (the regime where rounding decides about the
+            # last point): only the intended answer and numpy.arange's are acceptable
+            from decimal import Decimal
+            step = Decimal(rng.choice(["0.1", "0.2", "0.3", "0.05", "0.7", "0.15", "1.1"]))
+            start = step * rng.randint(1, 12) if rng.random() < 0.7 else Decimal(rng.randint(1, 30)) / 10
+            stop = start + step * rng.randint(2, 14)
+            drive(tr, f"range({start}, {stop}, {step})", "range_on_lattice")
+        if it % 10 == 3:
+            # twins: the same three numbers once as linspace(a, b, n) and once as range(a, b, n), in both orders, in one process
+            a, n = rng.randint(1, 9), rng.randint(2, 6)
+            b = a + n * rng.randint(1, 4) + rng.choice([0, 1])
+            pair = [f"linspace({a}, {b}, {n})", f"range({a}, {b}, {n})"]
+            rng.shuffle(pair)
+            for text in pair + pair[:1]:
+                drive(tr, text, "linspace_range_twins")
         if it % 10 == 5:
             # the same array through several syntaxes: hash must depend on the array only
             k = rng.choice([2, 3, 4, 5])
